@@ -1,5 +1,8 @@
 import PromModel.Tsdb.HeadCounters
 import PromModel.Suites.CountersSuite
+import PromModel.Tsdb.HistGauges
+import PromModel.Suites.HCountersSuite
+import PromProofs.HistGaugesLemmas
 /-
   C52 — the head's reported counters match its contents. Model: `PromModel/Tsdb/HeadCounters.lean`
   (`CDb` = the shared storage model `Db` + the series in memory incl. empty ones with their chunk lists,
@@ -71,5 +74,167 @@ theorem stale_transition_example :
     let c' := c.after [.base .begin, .base (.app 0 30 1), .base .commit]
     c.gauges = [1, 1, 1, 0] ∧ c.recount = [1, 1, 1] ∧ c'.gauges = [1, 0, 1, 0] ∧ c'.recount = [1, 0, 1] := by
   decide
+
+
+/-
+  ---------------------------------------------------------------------------------------------
+  Part 2 — the gauges derived from each series' newest in-order sample (stale series, native
+  histogram series, native histogram buckets; `PromModel/Tsdb/HistGauges.lean`), for ALL histories of
+  series creation, samples of any kind reaching any series in any timestamp order (in order or not),
+  eviction, restart from a snapshot and restart from the WAL.
+  ---------------------------------------------------------------------------------------------
+-/
+section HistGauges
+open Prom.HistGauges
+
+/-- A sample that is not in order (rejected, or diverted to the out-of-order chunk; live or on WAL
+    replay) changes neither the series nor any gauge. -/
+theorem not_in_order_is_noop (s : Ser) (g : G) (x : HistGauges.Smp) (h : s.accepts (convert s x).t = false) :
+    sampleAt s g x = (s, g) := by
+  simp [sampleAt, h]
+
+/-- One step keeps gauges = recount (no sample widened in place). -/
+theorem hist_step_inv (h : HistGauges.Head) (op : HistGauges.Op) (hw : NoWiden [op]) (hi : h.g = recount h.ser) :
+    (h.step op).g = recount (h.step op).ser := by
+  cases op with
+  | create =>
+    simp only [HistGauges.Head.step, recount_append, hi]
+    ext <;> simp [contrib, Last.bk]
+  | sample ref x =>
+    have hx : x.sb = x.nb := hw.1
+    simp only [HistGauges.Head.step]
+    split
+    · rename_i s hs
+      simp only
+      rw [recount_set h.ser ref (some s) _ hs, sampleAt_spec s h.g x hx, hi]
+    · exact hi
+  | evict ref =>
+    simp only [HistGauges.Head.step]
+    split
+    · rename_i s hs
+      simp only
+      rw [recount_set h.ser ref (some s) none hs, hi]
+      ext <;> simp [contrib]
+    · exact hi
+  | snapshotRestart =>
+    simp only [HistGauges.Head.step, foldl_contrib]
+    ext <;> simp
+
+theorem noWiden_cons (op : HistGauges.Op) (ops : List HistGauges.Op) (h : NoWiden (op :: ops)) : NoWiden [op] ∧ NoWiden ops := by
+  cases op <;> simp_all [NoWiden]
+
+theorem hist_run_inv (h : HistGauges.Head) (ops : List HistGauges.Op) (hw : NoWiden ops) (hi : h.g = recount h.ser) :
+    (h.run ops).g = recount (h.run ops).ser := by
+  induction ops generalizing h with
+  | nil => exact hi
+  | cons op r ih =>
+    have := noWiden_cons op r hw
+    exact ih (h.step op) this.2 (hist_step_inv h op this.1 hi)
+
+
+/-- C52 for the sample-derived gauges, all histories: starting from an empty head, after ANY sequence of
+    series creations, samples (float / histogram, stale or not, any bucket numbers, any timestamp order —
+    in order, rejected, out of order), type switches, evictions and snapshot restarts the four numbers
+    equal the recount — provided no sample was widened in place (`NoWiden`; without it the statement
+    is false as the code stands, `widen_witness`). -/
+theorem hist_gauges_match (ops : List HistGauges.Op) (hw : NoWiden ops) :
+    (({} : HistGauges.Head).run ops).g = recount (({} : HistGauges.Head).run ops).ser :=
+  hist_run_inv {} ops hw (by ext <;> simp [recount])
+
+/-- A restart from the WAL — every logged record replayed into an empty head, samples that are not in
+    order at that point skipped under the `sampleInOrder` guard — ends with gauges = recount, whatever the
+    log order (e.g. an out-of-order histogram logged after the newer sample, or two overlapping
+    appenders that committed in the reverse order of their timestamps). -/
+theorem wal_replay_gauges_match (log : List HistGauges.Op) (hw : NoWiden log) :
+    (replay log).g = recount (replay log).ser :=
+  hist_gauges_match log hw
+
+/-- A restart from a chunk snapshot rebuilds the numbers from the series (`loadChunkSnapshot`): they
+    equal the recount whatever the counters said before. -/
+theorem snapshot_restart_gauges_match (h : HistGauges.Head) :
+    (h.step .snapshotRestart).g = recount (h.step .snapshotRestart).ser := by
+  simp only [HistGauges.Head.step, foldl_contrib]
+  ext <;> simp
+
+/-- The per-series state machine (last-sample kind × staleness × bucket number): for ONE series and
+    any list of samples — type switches float ↔ histogram, staleness markers (a float marker on a
+    histogram series becomes a histogram marker), changing bucket numbers, timestamps in any order —
+    the head's numbers are exactly that series' contribution. -/
+theorem single_series_type_switches (xs : List HistGauges.Smp) (hw : ∀ x ∈ xs, x.sb = x.nb) :
+    let h := ({} : HistGauges.Head).run (.create :: xs.map (HistGauges.Op.sample 0))
+    h.g = recount h.ser := by
+  apply hist_gauges_match
+  show NoWiden (xs.map (HistGauges.Op.sample 0))
+  induction xs with
+  | nil => trivial
+  | cons x r ih =>
+    exact ⟨hw x (by simp), ih (fun y hy => hw y (by simp [hy]))⟩
+
+example : NoWiden [.create, .sample 0 ⟨10, .hist, false, 8, 8⟩, .sample 0 ⟨5, .hist, false, 3, 3⟩,
+    .sample 0 ⟨20, .float, true, 0, 0⟩, .evict 0] := by simp [NoWiden]
+
+/-- Instance with type switches: histogram(8) → float staleness marker (stored as a histogram marker
+    without buckets) → float → histogram(3): the numbers follow the recount at every stage. -/
+theorem type_switch_example :
+    let ops := [HistGauges.Op.create, .sample 0 ⟨10, .hist, false, 8, 8⟩, .sample 0 ⟨20, .float, true, 0, 0⟩]
+    let h := ({} : HistGauges.Head).run ops
+    let h' := h.run [.sample 0 ⟨30, .float, false, 0, 0⟩, .sample 0 ⟨40, .hist, false, 3, 3⟩]
+    h.g = ⟨1, 1, 1, 0⟩ ∧ recount h.ser = ⟨1, 1, 1, 0⟩ ∧ h'.g = ⟨1, 0, 1, 3⟩ ∧ recount h'.ser = ⟨1, 0, 1, 3⟩ := by
+  decide
+
+/-- Finding C52-F2 (in-place widening): a gauge histogram with 5 buckets opens a chunk, the next one
+    has 2 buckets and is widened to the chunk's 5 (`sb = 5`) but counted as 2; the bucket number is then 2
+    while the head holds 5, and the following float sample subtracts 5: the uint64 wraps (−3 here). -/
+theorem widen_witness :
+    let h := ({} : HistGauges.Head).run [.create, .sample 0 ⟨10, .hist, false, 5, 5⟩, .sample 0 ⟨20, .hist, false, 2, 5⟩]
+    let h' := h.step (.sample 0 ⟨30, .float, false, 0, 0⟩)
+    h.g.hbuckets = 2 ∧ (recount h.ser).hbuckets = 5 ∧ h'.g.hbuckets = -3 ∧ (recount h'.ser).hbuckets = 0 := by
+  decide
+
+/-- Why the `sampleInOrder` guard matters (the class of C52's seeded change): with the
+    native-histogram update outside the guard, replaying hist(8)@500 followed by the older hist(3)@300
+    leaves the bucket number at 3 while the series still holds the 8-bucket sample; and an older
+    histogram replayed after a newer FLOAT makes a histogram series out of a float series. -/
+theorem unguarded_replay_witness :
+    let s : Ser := ({} : Ser).store ⟨500, .hist, false, 8, 8⟩
+    let g : G := ⟨1, 0, 1, 8⟩
+    (sampleAtUnguarded s g ⟨300, .hist, false, 3, 3⟩) = (s, ⟨1, 0, 1, 3⟩) ∧
+    (sampleAt s g ⟨300, .hist, false, 3, 3⟩) = (s, g) ∧
+    (let f : Ser := ({} : Ser).store ⟨300, .float, false, 0, 0⟩
+     (sampleAtUnguarded f ⟨1, 0, 0, 0⟩ ⟨200, .hist, false, 8, 8⟩).2 = ⟨1, 0, 1, 8⟩ ∧
+     (sampleAt f ⟨1, 0, 0, 0⟩ ⟨200, .hist, false, 8, 8⟩).2 = ⟨1, 0, 0, 0⟩) := by
+  decide
+
+end HistGauges
+
+/-
+  Link between the judge of suite `hcounters` and the statement: on an observation whose gauges equal
+  the recount (series, stale, histogram series, histogram buckets, chunks), whose method values and
+  created−removed agree, whose postings agree with the series map and whose active-appender gauge equals
+  the number of open appenders, the judge's per-line check accepts and records no finding; if any of the
+  four sample-derived numbers or the series number differs it rejects (no restart-related exemption
+  armed).
+-/
+section Judge
+open Prom.HCounters
+
+def cleanObs (s st hs hb ch ap : Int) : Obs := ⟨[s, st, hs, hb, ch, ap], [s, st, hs, hb], s, [s, st, hs, hb, ch], s, 0⟩
+
+theorem judge_accepts_matching (s st hs hb ch : Int) (slots : List Nat) (k : Nat) (op raw : String) :
+    let j : J := { opened := slots }
+    (match j.check k op (cleanObs s st hs hb ch slots.length) raw with
+     | .ok j' => j'.known.isNone
+     | .error _ => false) = true := by
+  simp [J.check, cleanObs, HCounters.get, sameOrWrapped, List.range, List.range.loop]
+
+theorem judge_rejects_histogram_series_mismatch (s st hs hb ch d : Int) (hd : d ≠ 0) (k : Nat) (op raw : String) :
+    let o : Obs := ⟨[s, st, hs + d, hb, ch, 0], [s, st, hs + d, hb], s, [s, st, hs, hb, ch], s, 0⟩
+    (match ({} : J).check k op o raw with
+     | .ok _ => false
+     | .error _ => true) = true := by
+  have : ¬ (hs + d = hs) := by omega
+  simp [J.check, HCounters.get, J.armed, this]
+
+end Judge
 
 end Prom.C52
